@@ -651,7 +651,7 @@ func (env *c14Env) vmCopy(sp *c14Spec, lay *c14CopyLayout) {
 	pieces := func(ps []c14Piece) string {
 		var out []string
 		for _, p := range ps {
-			out = append(out, fmt.Sprintf("(%s, bytes %d %d)", core.CoqBool(p.str), ctr, p.n))
+			out = append(out, fmt.Sprintf("(%s, cbytes %d %d)", core.CoqBool(p.str), ctr, p.n))
 			ctr += p.n
 		}
 		return core.CoqList(out)
